@@ -8,9 +8,9 @@
    id act on the sender's own locks / namespace and are open to everybody. All statements hold for every state [s]
    - reachable or not - so they hold after every history, in particular after ownership transfers, admin changes
    and renouncement. [e] supplies the pool arithmetic the model does not compute; every statement is for all [e]. *)
-From Coq Require Import ZArith List Bool.
+From Coq Require Import ZArith List Bool Lia.
 Import ListNotations.
-From Osmo Require Import Gen.C20_msgs C20.Model C20.Proofs C20.Inventory.
+From Osmo Require Import Gen.C20_msgs C20.Model C20.Proofs C20.Frame C20.Inventory.
 Open Scope Z_scope.
 
 (* a message from a sender outside the authorised set fails and leaves every balance and record as it was *)
@@ -68,6 +68,47 @@ Theorem C20_force_transfer_module_fails : forall e s sender d amt from to,
 Proof. exact force_transfer_module_fails. Qed.
 Print Assumptions C20_force_transfer_module_fails.
 
+(* frame: an accepted message leaves everything that is not its sender's exactly as it was. [frame a m s s']:
+   every lock that is not [a]'s is found unchanged under its id afterwards and every lock that is not [a]'s afterwards
+   was there before, identically (so nothing foreign is altered, removed, created or handed over); the same for
+   positions - except that TransferPositions touches exactly the listed ids (whose owner or the governance module
+   account sent it, by C20_accepted_was_authorised) - and for denom records - except that ChangeAdmin touches exactly
+   the addressed denom; the configuration the guards read is unchanged. [wf] is the id discipline of reachable states
+   (ids below their counters, lock ids distinct); it holds for empty tables and is preserved by every step. *)
+Theorem C20_accepted_touches_only_own : forall e s a m s',
+  wf s -> step e s a m = (s', Ok) -> frame a m s s'.
+Proof. exact accepted_touches_only_own. Qed.
+Print Assumptions C20_accepted_touches_only_own.
+
+Theorem C20_wf_invariant : forall e s0 h, empty_tables s0 -> wf (run e s0 h).
+Proof. intros e s0 h H. apply run_wf, empty_wf, H. Qed.
+Print Assumptions C20_wf_invariant.
+
+(* ... hence after every history from empty tables *)
+Theorem C20_frame_after_any_history : forall e s0 h a m s',
+  empty_tables s0 -> step e (run e s0 h) a m = (s', Ok) -> frame a m (run e s0 h) s'.
+Proof. intros e s0 h a m s' H0 H. apply (accepted_touches_only_own e); [apply run_wf, empty_wf, H0|exact H]. Qed.
+Print Assumptions C20_frame_after_any_history.
+
+(* consequences: no message ever changes the owner of a lock; a position changes hands only through a
+   TransferPositions that names it; a denom that appears is in the sender's namespace, whatever the message *)
+Theorem C20_lock_owner_never_changes : forall e s a m s',
+  wf s -> step e s a m = (s', Ok) ->
+  forall id l l', find_lock s id = Some l -> find_lock s' id = Some l' -> l_owner l' = l_owner l.
+Proof. exact lock_owner_never_changes. Qed.
+Print Assumptions C20_lock_owner_never_changes.
+Theorem C20_position_owner_changes_only_by_transfer : forall e s a m s',
+  wf s -> step e s a m = (s', Ok) ->
+  forall id p p', find_pos s id = Some p -> find_pos s' id = Some p' -> p_owner p' <> p_owner p ->
+  exists ids rcp, m = MTransferPositions ids rcp /\ In id ids.
+Proof. exact position_owner_changes_only_by_transfer. Qed.
+Print Assumptions C20_position_owner_changes_only_by_transfer.
+Theorem C20_new_denoms_in_senders_namespace : forall e s a m s',
+  wf s -> step e s a m = (s', Ok) ->
+  forall c sub x, find_denom s' (DFactory c sub) = Some x -> find_denom s (DFactory c sub) = None -> c = a.
+Proof. exact new_denoms_in_senders_namespace. Qed.
+Print Assumptions C20_new_denoms_in_senders_namespace.
+
 (* the inventory: every Msg-service method of the four modules found in /repo (Gen/C20_msgs.v, regenerated on every
    run) is classified - modelled by a constructor of [msg] or explicitly not acting on an existing owned object -,
    no row is stale, and every constructor models a method that exists *)
@@ -89,6 +130,15 @@ Definition nv_state : state :=
           [(3, DFactory 1 1, 50); (7, DNative 1, 170)]
           6 7 10 [6; 7; 8; 10] [5] 20 [DNative 1] [0; 1] 0 (DNative 9) [] [] [] [] [] [].
 Definition nv_env : env := mkEnv 777 0 [].
+
+Example C20_nonvacuous_wf : wf nv_state /\ (exists s0, empty_tables s0).
+Proof.
+  split; [|exists (mkState [] 1 [] 0 [] [] 6 7 10 [] [] 0 [] [] 0 (DNative 0) [] [] [] [] [] []); split; reflexivity].
+  unfold wf, nv_state. cbn [locks positions last_lock next_pos]. split; [|split].
+  - intros l [<-|[<-|[]]]; cbn; lia.
+  - cbn. repeat constructor; cbn; intuition lia.
+  - intros p [<-|[<-|[]]]; cbn; lia.
+Qed.
 
 Example C20_nonvacuous :
   (* hypotheses of the theorems are met by concrete messages ... *)
